@@ -169,4 +169,27 @@ theorem if_first_true (fuel : Nat) (p : TokPos) (bs : List Bool) (bodies : List 
 example : (sortVals valLess [.int 3, .int 1, .int 2]).map Val.toInt = [1, 2, 3] := by decide
 example : iterItems (.nil) true true = [] := iter_nothing _ (Or.inl rfl) _ _
 
+/-- **`sorted` compares integers of every kind in their own range** (D59): unsigned values are
+    ordered as the natural numbers they are — 2^63 comes after 5, not before it as a wrapped
+    negative number — and mixed signed / unsigned pairs by their exact values -/
+theorem valLess_unsigned (a c : UInt64) : valLess (.uint a) (.uint c) = decide (a.toNat < c.toNat) := by
+  simp [valLess, intValue, Val.resolved, Val.isInteger, Val.rkind, Val.kind]
+
+theorem valLess_mixed (a : Int64) (c : UInt64) :
+    valLess (.int a) (.uint c) = decide (a.toInt < (c.toNat : Int)) ∧ valLess (.uint c) (.int a) = decide ((c.toNat : Int) < a.toInt) := by
+  constructor <;> simp [valLess, intValue, Val.resolved, Val.isInteger, Val.rkind, Val.kind] <;> congr
+
+example : valLess (.uint 5) (.uint 9223372036854775808) = true ∧ valLess (.uint 9223372036854775808) (.uint 5) = false := by decide
+
+/-- **After `else` only `endif`** (D50): once every condition has its body (the body that just ended
+    was the `else` branch), an `elif` or a second `else` is a compile error — conditions are never
+    paired with the wrong bodies -/
+theorem after_else_only_endif (T : LexTables) (cfg : SetCfg) (fuel : Nat) (conds : List Expr) (bodies : List (List Node))
+    (prev : Option Tok) (ds ds' : DS) (body : List Node) (endtag : Bytes) (tagArgs : PS) (last : Option Tok)
+    (hw : wrapUntil T cfg fuel [b!"elif", b!"else", b!"endif"] [] prev ds = .ok (body, endtag, tagArgs, last, ds'))
+    (helse : bodies.length = conds.length) (hend : endtag ≠ b!"endif") :
+    ifBranches T cfg (fuel + 1) conds bodies prev ds = .error (tagArgs.err "Only 'endif' is allowed after 'else'.") := by
+  rw [ifBranches]
+  simp [hw, bind, Except.bind, helse, hend]
+
 end Pongo.C09
